@@ -53,6 +53,10 @@ func main() {
 // ---------------------------------------------------------------- child
 
 func childMain() {
+	if strings.HasPrefix(*childFile, "failedstart:") {
+		failedStartChild(strings.TrimPrefix(*childFile, "failedstart:"))
+		return
+	}
 	if strings.HasPrefix(*childFile, "reentrant:") {
 		reentrantChild(strings.TrimPrefix(*childFile, "reentrant:"))
 		return
